@@ -209,6 +209,10 @@ def utf8DecodeRuneApprox (s : Bytes) : Int × Int :=
 def errStruct (name : String) (reason : Option String) : Option String :=
   some (name ++ ": " ++ reason.getD "")
 
+/-- a `strings.Builder` / `bytes.Buffer` handed to a callee as its `io.Writer`: appends, never fails -/
+def bufWriter (st : Bytes) : Writer Bytes :=
+  { st := st, write := fun st p => ((p.length : Int), none, st ++ p) }
+
 /-- `strings.IndexByte` -/
 def stringsIndexByte (s : Bytes) (c : UInt8) : Int :=
   let i := s.findIdx (· == c)
